@@ -32,6 +32,8 @@ TEXT = {
          "Coq proof (characterisation of each operation + induction over operation sequences) + exhaustive bounded-depth correspondence"),
  "C05": ("Theorems: from every state reachable through the public API (any history of decap / provision / new_pdu / reset calls on a memory with any number of slots, induction over the call list) and for every byte buffer, decap returns Ok or Err (the model's explicit Panic outcome and fuel exhaustion of the extension walker are proved unreachable), the state stays well formed, consumed <= buffer length, and consumed >= min(2, length) for non-empty buffers; the peek function is total. Proved from decap_spec: the statement-by-statement model equals the closed form decap_hl. Correspondence: DEC family plus all 0..2-byte buffers and every header word with adversarial tails.",
          "Coq proof (closed form of decap by symbolic execution; invariant by induction over call histories; walker termination by a decreasing measure) + differential correspondence"),
+ "C08": ("Theorems for the bundled memory: each decap call (any bytes, any well-formed state) conserves buffer identities -- identities in the free list and slots after the call plus the buffer handed out in the result (completed PDU or the buffer inside an error value) are a permutation of those before; over unbounded histories of decap / provision-new / provision-back / new_pdu / reset the buffers held by memory and caller are a permutation of those ever provisioned (no leak), and NoDup is preserved (no duplication). Proved from the closed form of decap and Permutation lemmas on the slot update; the proof also shows save_frag is never called on an occupied slot. Foreign GseDecapMemory implementations are outside (stated in DESIGN.md section 5).",
+         "Coq proof (Permutation invariant by induction over call histories, from the closed form of decap) + differential correspondence + multiset oracle"),
 }
 
 def main():
